@@ -56,6 +56,28 @@ theorem C09_failure_not_recorded (s : St) (t : TaskIn) (rest : List TaskIn)
     · rename_i e; rw [e, hm]
     · rfl
 
+theorem judgeWith_mono {p q : Ghost → OEvent → Bool} (hpq : ∀ g e, p g e = true → q g e = true) :
+    ∀ (g : Ghost) (oh : ObservedHistory), judgeWith p g oh = true → judgeWith q g oh = true
+  | _, [], _ => rfl
+  | g, e :: es, h => by
+    simp only [judgeWith, Bool.and_eq_true] at h ⊢
+    exact ⟨hpq g e h.1, judgeWith_mono hpq _ es h.2⟩
+
+/-- **C09, observable form (run loop).** The judge of the run engine's C09 clause — the report never contradicts what ran,
+    and no later skip of a task without the ghost agreeing — accepts every history the model produces, or exhibits a
+    digest collision. -/
+theorem C09_judge_accepts (h : History) :
+    c09 (runHistory digest World.init h).2 = true ∨ ∃ i j : Items, i ≠ j ∧ digest i = digest j := by
+  rcases C01_judge_accepts digest h with h1 | hc
+  · left
+    unfold c09
+    unfold c01 at h1
+    rw [h1, Bool.and_true]
+    refine judgeWith_mono ?_ _ _ h1
+    intro g e he
+    cases e <;> simp_all [c01Ev, c09Ev]
+  · exact .inr hc
+
 /-! ## non-vacuity: concrete histories (digest = `natDigest`) -/
 
 /-- task 0 depends on one file (path 0, content 1), then content 2 -/
